@@ -57,6 +57,31 @@ def tamper_walk(w, tier, rng, o, goal, size, p_id):
     return cid
 
 
+def dual_stack_walk(w, goal):
+    """dual-stack hosts (a DispatcherEndpoint over an IPv4 and an IPv6 interface, as ipv8_service builds them): once a
+    circuit carries data, fabricated cells - unencrypted, for every id in use, of both kinds - arrive at every node on
+    both of its interfaces; the tunnel layer must guard each interface alike"""
+    cid = K.build(w, "o", goal)
+    w.send_data("o", cid, 1)
+    while w.net.inflight:
+        w.deliver(w.net.inflight[0].seq)
+    known = sorted(set(w.cid_map.values()))
+    for n in w.names:
+        for c in known:
+            for mt in ("data", "ping"):
+                for _both in range(2):           # _adv_put alternates between the IPv6 and the IPv4 interface
+                    w.adv_plain("adv", n, c, mt)
+                    while w.net.inflight:
+                        w.deliver(w.net.inflight[0].seq)
+            for _both in range(2):
+                w.inject("adv", n, c, "data")
+                while w.net.inflight:
+                    w.deliver(w.net.inflight[0].seq)
+    w.send_data("o", cid, 2)
+    while w.net.inflight:
+        w.deliver(w.net.inflight[0].seq)
+
+
 def e2e_walk(w, tier, rng, g1, g2):
     """two circuits (g1 and g2 hops) that end in the same rendezvous node are linked (hidden services); data flows in
     both directions under the extra end-to-end layer; on every link a copy of the cell is altered and delivered; the
@@ -160,6 +185,20 @@ def run(tier, seed, replay=None):
         finally:
             w.close()
     K.validate_family(ctx, PID, e2e, "two_origins", hdr_e, "e2e", NONTRIVIAL | {"SendE2E", "RPForge"})
+    dual = []
+    for goal in ((1, 2) if tier == "quick" else (1, 2, 3)):
+        w = R.world("line4", seed * 100 + 85 + goal, dual_stack=True)
+        try:
+            gone = K.guarded(w, dual_stack_walk, w, goal)
+            tr = {"events": w.events, "topology": "line4", "seed": seed, "profile": "dual-stack g%d" % goal, "aborted": gone}
+            K.check_escapes(ctx, w, tr, "dual-stack")
+            dual.append(tr)
+            hdr_d = w.header()
+        finally:
+            w.close()
+    K.validate_family(ctx, PID, dual, "line4", hdr_d, "dual-stack", NONTRIVIAL)
+    K.random_family(ctx, PID, "line4", "tamper", range(base + 50, base + 50 + (1 if tier == "quick" else 6)), steps, NONTRIVIAL,
+                    dual_stack=True)
     ctx.note("e2e", {"runs": len(e2e), "events": sum(len(t["events"]) for t in e2e),
                      "forged_by_rendezvous": sum(1 for t in e2e for e in t["events"] if e["a"] == "RPForge")})
     ctx.note("tamper_walk", {"walks": len(walks), "events": sum(len(t["events"]) for t in walks),
